@@ -286,7 +286,9 @@ def post_build(prop, lean_dir):
         digests.update(py2lean.defs_digest(_read(os.path.join(lean_dir, "PycsepVerif", G["gen"]))))
     by_owner = {}
     for t in targets:
-        by_owner.setdefault((gen_of(t)["key"], t["prop"]), []).append(t)
+        # the theorem module of a function: Source*/<owning property>.lean unless TARGETS names another one (`module`), so that
+        # one property can keep independent ties in separate files (a lost tie of one does not take the other with it)
+        by_owner.setdefault((gen_of(t)["key"], t.get("module", t["prop"])), []).append(t)
     dirty = False
     for (gkey, owner), ts in by_owner.items():
         G = next(g for g in GENS if g["key"] == gkey)
